@@ -254,7 +254,7 @@ def verdict(case, sched, result, mon, array, lock, cachers):
             "monitor: readers/writers left at quiescence", case=info)
 
 def run_sched(case):
-    s = Sched(choices=case.get("choices", ()), max_steps=6000)
+    s = Sched(choices=case.get("choices", ()), max_steps=6000, default_choice=case.get("tail", 0))
     result, mon, array, lock, cachers = run_program(case, s)
     case["_switches"] = len(s.trace)
     verdict(case, s, result, mon, array, lock, cachers)
@@ -288,7 +288,8 @@ def sched_cases(draw, tier):
     parts = [draw(st.lists(op_strategy(), min_size=1, max_size=maxops)) for _ in range(n)]
     return {"topology": draw(st.sampled_from(["threads", "procs"])), "parts": parts,
             "pre": draw(st.lists(st.sampled_from(KEYS[:3]), unique=True, max_size=2)),
-            "choices": draw(st.lists(st.integers(0, 3), max_size=160 if tier == "quick" else 300))}
+            "choices": draw(st.lists(st.integers(0, 3), max_size=160 if tier == "quick" else 300)),
+            "tail": draw(st.sampled_from([0, 0, 1, 2, 3]))}   # who runs once the drawn choices are used up
 
 def _keys_of(op):
     ks = [(op["key"], op["op"] == "rmv" or op["op"] == "get_set")]
